@@ -29,6 +29,11 @@ def showState (s : State) : String :=
   let held := ",".intercalate (s.threads.map (fun t => toString t.shown))
   s!"{word} drops={s.drops} freed={s.frees} {q} held={held}"
 
+/-- Bound of `op_completes_solo` (Props.lean): a thread that runs alone finishes within this many
+steps after the one that starts the operation.  `T run <op>` uses it as its fuel, so a real operation
+that needs more steps than the theorem allows shows up as a trace difference. -/
+def soloBound : Nat := 12
+
 /-- `T run <op>`: start the operation and step until it completes (bounded by `fuel`). -/
 def runToEnd (s : State) (t : Tid) (a : Act) (fuel : Nat) : Option (State × Out) :=
   match step s t a with
@@ -53,7 +58,7 @@ def line (s : State) (l : String) : State × String :=
   | t :: "run" :: rest =>
       match t.toNat?, parseAct rest with
       | some t, some a =>
-          match runToEnd s t a 64 with
+          match runToEnd s t a soloBound with
           | some (s', o) => (s', showOut o ++ " | " ++ showState s')
           | none => (s, "bad not-enabled")
       | _, _ => (s, "bad parse")
@@ -92,8 +97,9 @@ def enabled (s : State) (w : Nat) : List (Tid × Act) :=
     starts ++ steps
 
 /-- Random schedule: `len` random executable lines after the preamble, then every parked thread is
-stepped to completion; with `drain` every thread then drops what it holds, merges and exits. -/
-def genSchedule (rng : UInt64) (nthreads len : Nat) (drain : Bool) : List String × UInt64 := Id.run do
+stepped to completion; with `drain ≥ 1` every thread then drops what it holds, merges (`drain = 1`
+only: with `drain = 2` an entry parked for an unregistered owner stays parked) and exits. -/
+def genSchedule (rng : UInt64) (nthreads len : Nat) (drain : Nat) : List String × UInt64 := Id.run do
   let mut rng := rng
   let mut s := init
   let mut out : List String := []
@@ -136,17 +142,18 @@ def genSchedule (rng : UInt64) (nthreads len : Nat) (drain : Bool) : List String
         | some (s', _) => s := s'; out := s!"{t} step" :: out
         | none => pure ()
     | none => pure ()
-  if drain then
+  if drain ≥ 1 then
     for t in List.range s.threads.length do
       for _ in List.range 64 do
-        match runToEnd s t .drop 64 with
+        match runToEnd s t .drop soloBound with
         | some (s', _) => s := s'; out := s!"{t} run drop" :: out
         | none => break
     for t in List.range s.threads.length do
-      match runToEnd s t .merge 64 with
-      | some (s', _) => s := s'; out := s!"{t} run merge" :: out
-      | none => pure ()
-      match runToEnd s t .exit 64 with
+      if drain = 1 then
+        match runToEnd s t .merge soloBound with
+        | some (s', _) => s := s'; out := s!"{t} run merge" :: out
+        | none => pure ()
+      match runToEnd s t .exit soloBound with
       | some (s', _) => s := s'; out := s!"{t} run exit" :: out
       | none => pure ()
   return (out.reverse, rng)
@@ -162,7 +169,7 @@ partial def enumOps (s : State) (pre : List String) (depth : Nat) (acts : List A
     let mut any := false
     for t in List.range n do
       for a in acts do
-        match runToEnd s t a 64 with
+        match runToEnd s t a soloBound with
         | some (s', _) =>
             any := true
             enumOps s' (s!"{t} run {showAct a}" :: pre) (depth - 1) acts emit
@@ -171,7 +178,7 @@ partial def enumOps (s : State) (pre : List String) (depth : Nat) (acts : List A
 
 /-- The verdict of the specification S on the final state (last output line). -/
 def verdict (s : State) : String :=
-  s!"spec uaf={s.uaf} badUnique={s.badUnique} earlyFree={s.earlyFree} underflow={s.underflow} frees={s.frees} drops={s.drops} total={s.total} alive={s.alive}"
+  s!"spec uaf={s.uaf} badUnique={s.badUnique} earlyFree={s.earlyFree} underflow={s.underflow} frees={s.frees} drops={s.drops} total={s.total} alive={s.alive} created={s.created} idle={s.threads.all (fun th => th.pc == .idle)} queued={s.gQ}"
 
 partial def loop (h : IO.FS.Stream) (s : State) : IO Unit := do
   let l ← h.getLine
@@ -193,7 +200,7 @@ def mainC05 (args : List String) : IO Unit := do
       for i in List.range count.toNat! do
         let (nt, rng1) := pick rng (nthreads.toNat! - 1)
         let (ln, rng2) := pick rng1 len.toNat!
-        let (sched, rng3) := genSchedule rng2 (nt + 2) (ln + 4) (i % 2 == 0)
+        let (sched, rng3) := genSchedule rng2 (nt + 2) (ln + 4) (if i % 2 == 0 then 1 else if i % 4 == 1 then 2 else 0)
         rng := rng3
         for l in sched do IO.println l
         IO.println "reset"
